@@ -1,4 +1,4 @@
-import AsherahVerif.Proofs.EnvTimeBase
+import AsherahVerif.Proofs.EnvTimeProps
 /-
 C04 — Expired keys are never used to protect new data (inline rotation).
 
@@ -10,6 +10,143 @@ the real package on every run.  Histories are lists of public operations (`Op`) 
 -/
 namespace AsherahVerif.Props.C04
 open AsherahVerif.Env
+
+/-! ### what a fault-free encrypt guarantees -/
+
+/-- **C04, first sentence.** A record returned by a fault-free encrypt on a reachable world names an
+intermediate key of the session's partition that is not expired at that moment under the
+session's factory policy — for every cache configuration, every history, provided a key is not
+born expired under that policy (`BornValid`, implied by `PolicyOK`: precision ≤ lifetime, whole
+seconds; see `born_expired_counterexample` for the excluded point). -/
+theorem no_expired_ik {w w' : World} (hr : Reach w) {s pay : Nat} {d : Drr}
+    (_hopen : sessionOpen w s) (ha : allowed w (.encrypt s pay []) = true)
+    (hb : BornValid (sessionCtx w s).pol)
+    (h : applyOp w (.encrypt s pay []) = (.record d, w')) :
+    ∃ m, drrIk d = some m ∧ m.kid = .ik (sessionCtx w s).part ∧
+      isExpired w.now m.created (sessionCtx w s).pol.expireAfter = false := by
+  obtain ⟨-, -, -, c, hd, hout⟩ := encrypt_outcome hr.inv ha h
+  refine ⟨_, hd, rfl, ?_⟩
+  rcases hout with ⟨k, -, hc, hv, -⟩ | ⟨r, -, -, -, hne, -⟩
+  · unfold isKeyInvalid at hv
+    rw [hc] at hv
+    cases hx : isExpired w.now c (sessionCtx w s).pol.expireAfter
+    · rfl
+    · rw [hx] at hv; simp at hv
+  · exact hne hb
+
+/-- the same under the literal configuration hypothesis of the property. -/
+theorem no_expired_ik_policyOK {w w' : World} (hr : Reach w) {s pay : Nat} {d : Drr}
+    (hopen : sessionOpen w s) (ha : allowed w (.encrypt s pay []) = true)
+    (hp : ∀ fac ∈ w.facs, PolicyOK fac.pol)
+    (h : applyOp w (.encrypt s pay []) = (.record d, w')) :
+    ∃ m, drrIk d = some m ∧ m.kid = .ik (sessionCtx w s).part ∧
+      isExpired w.now m.created (sessionCtx w s).pol.expireAfter = false := by
+  refine no_expired_ik hr hopen ha (bornValid_of_policyOK ?_) h
+  obtain ⟨ss, hss, -, fac, hfac, -⟩ := hopen
+  have : (sessionCtx w s).pol = fac.pol := by
+    unfold sessionCtx
+    simp only [List.getD_eq_getElem?_getD, hss, Option.getD_some, hfac]
+  rw [this]
+  exact hp fac (List.mem_of_getElem? hfac)
+
+/-- **C04, second sentence.** Every row a fault-free encrypt adds to the metastore is unrevoked,
+stamped with the truncated clock, and is either a system-key row or an intermediate-key row of the
+session's partition whose parent system key is not expired at that moment under the session's
+factory policy (also on the duplicate-adoption path: adoption adds no row).  The statement is
+relative to the *creating* factory's policy: a factory with a shorter lifetime sharing the
+metastore may find that parent expired under its own policy (see F-12 below). -/
+theorem no_ik_under_expired_sk {w : World} (hr : Reach w) {s pay : Nat}
+    (_hopen : sessionOpen w s) (ha : allowed w (.encrypt s pay []) = true)
+    (hb : BornValid (sessionCtx w s).pol) :
+    ∀ r ∈ (applyOp w (.encrypt s pay [])).2.store, r ∈ w.store ∨
+      (r.revoked = false ∧ r.created = keyTimestamp w.now (sessionCtx w s).pol.precision ∧
+        (r.kid = .sk ∨ (r.kid = .ik (sessionCtx w s).part ∧ ∃ p, r.parent = some p ∧
+          isExpired w.now p.created (sessionCtx w s).pol.expireAfter = false))) := by
+  simp only [allowed, List.isEmpty_nil, Bool.true_and, decide_eq_true_eq] at ha
+  have hw := encrypt_wp hr.inv s pay true ha
+  unfold Wp at hw
+  rw [applyOp_world]
+  intro r hmem
+  rcases hw.2.2.2.1 r hmem with h1 | ⟨h1, h2, h3 | ⟨h3, p, hp, hne, -⟩⟩
+  · exact Or.inl h1
+  · exact Or.inr ⟨h1, h2, Or.inl h3⟩
+  · exact Or.inr ⟨h1, h2, Or.inr ⟨h3, p, hp, hne hb⟩⟩
+
+/-- **C04, third sentence, what holds (`…_partial`).**  If a fault-free encrypt on a reachable world
+returns a record naming the intermediate key `m` whose stored row `r` has parent `p`, then one of:
+* `p` is not expired at that moment under the session's policy; or
+* the key was served from the session's cache: the entry `read` finds for "latest" was loaded at
+  most one revoke-check interval ago (`now ≤ loadedAt + interval`), it is that key, and the
+  operation made no metastore or KMS call; or
+* (F-12) the row was *adopted* after a refused insert: it existed before the operation and no later
+  creation stamp was available (`keyTimestamp now precision ≤ m.created`).
+Weaker than the full statement in that the bound is counted from the load of the session's cache
+entry (`now ≤ max tE loadedAt + interval`), not from the expiry `tE` alone; the content is that
+every reload goes through `loadLatestOrCreateIntermediateKey`, which re-reads the row *and*
+validates its parent system key — an entry is trusted for one interval after it was loaded, by
+whichever path it was loaded (F-11: a decrypt installs entries without that validation). -/
+theorem ik_of_expired_sk_bounded_partial {w w' : World} (hr : Reach w) {s pay : Nat} {d : Drr}
+    (_hopen : sessionOpen w s) (ha : allowed w (.encrypt s pay []) = true)
+    (hb : BornValid (sessionCtx w s).pol)
+    (h : applyOp w (.encrypt s pay []) = (.record d, w'))
+    {m : KeyMeta} {r : Row} {p : KeyMeta} (hm : drrIk d = some m) (hrow : findRow w'.store m = some r)
+    (hpar : r.parent = some p) :
+    isExpired w.now p.created (sessionCtx w s).pol.expireAfter = false ∨
+    (∃ e, readEntry w (sessionCtx w s).ikCache ⟨.ik (sessionCtx w s).part, 0⟩ = some e ∧
+        w.now ≤ e.loadedAt + (sessionCtx w s).pol.revokeInterval ∧ (keyAt w e.obj).created = m.created ∧
+        Silent w' ∧ w'.store = w.store) ∨
+    (r ∈ w.store ∧ keyTimestamp w.now (sessionCtx w s).pol.precision ≤ m.created) := by
+  obtain ⟨hinv, -, -, c, hd, hout⟩ := encrypt_outcome hr.inv ha h
+  rw [hm] at hd; cases hd
+  rcases hout with ⟨k, ⟨e, he, ho, hfr⟩, hc, hv, hil, hst⟩ | ⟨r', hr', hk', hc', -, hcase, -⟩
+  · right; left
+    refine ⟨e, he, ?_, by rw [ho]; exact hc, ?_, hst⟩
+    · unfold isKeyInvalid at hv
+      unfold isReloadRequired at hfr
+      have hrev : (keyAt (beginOp [] w).2 k).revoked = false := by
+        cases hx : (keyAt (beginOp [] w).2 k).revoked
+        · rfl
+        · rw [hx] at hv; simp at hv
+      rw [hrev] at hfr
+      simp only [Bool.false_eq_true, if_false, decide_eq_false_iff_not] at hfr
+      have : (beginOp [] w).2.now = w.now := rfl
+      rw [this] at hfr
+      omega
+    · exact hil.silent (fun c hc => by cases hc)
+  · obtain ⟨hmem, hk, hcr⟩ := findRow_some hrow
+    have : r = r' := hinv.sto.uniq r r' hmem hr' (hk.trans hk'.symm) (hcr.trans hc'.symm)
+    subst this
+    rcases hcase with ⟨hin, hle⟩ | ⟨p', hp', hne, -⟩
+    · right; right; exact ⟨hin, hle⟩
+    · left
+      rw [hpar] at hp'; cases hp'
+      exact hne hb
+
+/-- the same as an inequality, when a later creation stamp is available (no adoption): with
+`tE = p.created·1e9 + expireAfter` the expiry of the parent, either `now ≤ tE`, or the session's
+cache holds an entry for the key, loaded at `L`, and `now ≤ L + revokeInterval`; hence
+`now ≤ max tE L + revokeInterval`. -/
+theorem ik_of_expired_sk_bounded_partial_le {w w' : World} (hr : Reach w) {s pay : Nat} {d : Drr}
+    (hopen : sessionOpen w s) (ha : allowed w (.encrypt s pay []) = true)
+    (hb : BornValid (sessionCtx w s).pol)
+    (hcs : CanStamp w (.ik (sessionCtx w s).part) (sessionCtx w s).pol.precision)
+    (h : applyOp w (.encrypt s pay []) = (.record d, w'))
+    {m : KeyMeta} {r : Row} {p : KeyMeta} (hm : drrIk d = some m) (hrow : findRow w'.store m = some r)
+    (hpar : r.parent = some p) :
+    w.now ≤ p.created * nsPerSec + (sessionCtx w s).pol.expireAfter ∨
+    ∃ e, readEntry w (sessionCtx w s).ikCache ⟨.ik (sessionCtx w s).part, 0⟩ = some e ∧
+      w.now ≤ e.loadedAt + (sessionCtx w s).pol.revokeInterval := by
+  rcases ik_of_expired_sk_bounded_partial hr hopen ha hb h hm hrow hpar with h1 | ⟨e, he, hle, -⟩ | ⟨hin, hle⟩
+  · left; exact (isExpired_false_iff _ _ _).mp h1
+  · right; exact ⟨e, he, hle⟩
+  · exfalso
+    obtain ⟨-, hk, hc⟩ := findRow_some hrow
+    have := hcs r hin (by
+      rw [hk]
+      obtain ⟨-, -, -, c, hd, -⟩ := encrypt_outcome hr.inv ha h
+      rw [hm] at hd; cases hd; rfl)
+    rw [hc] at this
+    omega
 
 /-! ### concrete witness histories -/
 
@@ -148,5 +285,32 @@ theorem ik_of_expired_sk_bounded_counterexample_alias : ¬ ik_of_expired_sk_boun
   have := h w11 2 3 e11 (applyOp w11 (.encrypt 2 3 [])).2 ⟨.ik 1, 1700003000⟩ r11 ⟨.sk, 1700000000⟩ reach11 hp
     (Prod.ext (by decide) rfl) (by decide) (by decide) (by decide)
   revert this; decide
+
+/-! ### non-vacuity -/
+
+def w0 : World := (runOps (World.init T0) [.newFactory (pol hour (120 * sec) sec) 0 0 0 0, .getSession 0 0 0 0]).2
+def dFirst : Drr :=
+  { key := some { created := 1700000000, enc := .enc 1 2 (.key 2), parent := some ⟨.ik 0, 1700000000⟩ },
+    data := .enc 2 1 (.payload 1) }
+
+/-- `no_expired_ik`, `no_ik_under_expired_sk`: a first encrypt on a fresh factory satisfies all hypotheses. -/
+example : Reach w0 ∧ sessionOpen w0 0 ∧ allowed w0 (.encrypt 0 1 []) = true ∧ BornValid (sessionCtx w0 0).pol ∧
+    ∃ w', applyOp w0 (.encrypt 0 1 []) = (.record dFirst, w') :=
+  ⟨⟨T0, _, by decide, rfl⟩, ⟨_, rfl, rfl, _, rfl, rfl⟩, by decide, bornValid_of_policyOK pol_ok_hour,
+   _, Prod.ext (by decide) rfl⟩
+
+/-- `ik_of_expired_sk_bounded_partial`: the F-12 world satisfies the hypotheses with an *expired*
+parent — the theorem then places it in the adoption disjunct. -/
+example : Reach w12 ∧ sessionOpen w12 2 ∧ allowed w12 (.encrypt 2 955 []) = true ∧ BornValid (sessionCtx w12 2).pol ∧
+    (applyOp w12 (.encrypt 2 955 [])).1 = .record d12 ∧ drrIk d12 = some ⟨.ik 0, 1700001800⟩ ∧
+    findRow (applyOp w12 (.encrypt 2 955 [])).2.store ⟨.ik 0, 1700001800⟩ = some r12 ∧
+    r12.parent = some ⟨.sk, 1700000000⟩ ∧
+    isExpired w12.now 1700000000 (sessionCtx w12 2).pol.expireAfter = true :=
+  ⟨reach12, ⟨_, rfl, rfl, _, rfl, rfl⟩, by decide, bornValid_of_policyOK pol_ok_10min, by decide, by decide, by decide,
+   by decide, by decide⟩
+
+/-- `ik_of_expired_sk_bounded_partial_le`: in the F-11 world a later stamp is available (`CanStamp`). -/
+example : CanStamp w11 (.ik (sessionCtx w11 2).part) (sessionCtx w11 2).pol.precision := by
+  unfold CanStamp; decide
 
 end AsherahVerif.Props.C04
